@@ -194,7 +194,7 @@ func (k *walker) slab(id atree.SlabID, parent atree.SlabID, root int) {
 	}
 	rec := SlabRec{ID: id, Slab: s, Info: atree.VerifDescribeSlab(s), Layer: layer, Parent: parent, Root: root}
 	k.res.Recs = append(k.res.Recs, rec)
-	k.sb.WriteString(layer)
+	k.sb.WriteString(k.w.layerText(layer))
 	k.slabBody(s, id, root)
 }
 
@@ -359,7 +359,7 @@ func (w *World) DoWalk() *Walk {
 				}
 			}
 			res.Recs = append(res.Recs, SlabRec{ID: id, Slab: rootSlab, Info: atree.VerifDescribeSlab(rootSlab), Layer: layer, Root: c.Serial})
-			k.sb.WriteString(layer)
+			k.sb.WriteString(w.layerText(layer))
 			k.slabBody(rootSlab, id, c.Serial)
 		} else {
 			k.slab(c.SID, atree.SlabIDUndefined, c.Serial)
@@ -461,7 +461,7 @@ func (w *World) modelText(wk *Walk) string {
 				fmt.Fprintf(&sb, "%s:%s ", keyText(c.Keys[i]), classOfCanon(c.Vals[i], names))
 			}
 			sb.WriteString("}")
-			if c.Map != nil {
+			if c.Map != nil && !w.traceMode {
 				root, hp := atree.VerifMapState(c.Map)
 				fmt.Fprintf(&sb, " h pu=%v", hp)
 				sb.WriteString(w.handleRootText(c, root, wk))
@@ -472,7 +472,7 @@ func (w *World) modelText(wk *Walk) string {
 				sb.WriteString(classOfCanon(e, names) + " ")
 			}
 			sb.WriteString("]")
-			if c.Arr != nil {
+			if c.Arr != nil && !w.traceMode {
 				root, hp, tracked := atree.VerifArrayState(c.Arr)
 				fmt.Fprintf(&sb, " h pu=%v tr[", hp)
 				var ts []string
@@ -621,4 +621,25 @@ func (w *World) committedText() string {
 		}
 	}
 	return sb.String()
+}
+
+// layerText renders the storage layer of a slab.  In trace mode (used to decide whether a
+// rejected request left a trace) the read cache is not distinguished from the ledger: the
+// property speaks of the container, its ancestors and the pending write set.
+func (w *World) layerText(layer string) string {
+	if w.traceMode {
+		if len(layer) > 0 && layer[0] == 'D' {
+			return "D"
+		}
+		return "-"
+	}
+	return layer
+}
+
+// TraceText is StateText without read-cache and handle information.
+func (w *World) TraceText() string {
+	w.traceMode = true
+	defer func() { w.traceMode = false }()
+	t, _ := w.StateText()
+	return t
 }
